@@ -15,6 +15,10 @@ func main() {
 		runSM(os.Args[2:])
 	case "table":
 		runTable(os.Args[2:])
+	case "ogm":
+		runOGM(os.Args[2:])
+	case "ogmstress":
+		runOGMStress(os.Args[2:])
 	default:
 		fmt.Fprintln(os.Stderr, "unknown mode", os.Args[1])
 		os.Exit(2)
